@@ -132,13 +132,16 @@ def c18_request_bytes(req, path="/p"):
 def c18_app_reply(app, start_response):
     """WSGI behaviour of one scripted app entry (status bytes | int, headers, clen, pieces, retval[, (restarts, written)[, err]]).
     err = None | (k, status int, reason, title, detail, fault int|None, headers): the app raises httping.HTTPError after its iterator has
-    yielded k items (k < 0: the app callable raises at once, before start_response).
+    yielded k items (k < 0: the app callable raises at once, before start_response);  err = ("crash", n): the callable raises another exception.
     restarts: earlier start_response calls [(status, headers, clen)] made before the final one — every call after the first passes
     exc_info (the PEP 3333 error restart, legal as long as nothing has been written); written: non-empty pieces the app hands to the
     write() callable returned by start_response before it returns its iterable"""
     status, headers, clen, pieces, retval = app[:5]
     restarts, written = app[5] if len(app) > 5 else ([], [])
     err = app[6] if len(app) > 6 else None
+    if err is not None and err[0] == "crash":
+        # the application callable raises something that is NOT an HTTPError, before it has called start_response
+        raise [RuntimeError("app failed"), KeyError("missing"), ZeroDivisionError(), UnicodeDecodeError("utf-8", b"\xff", 0, 1, "bad body")][err[1] % 4]
 
     def fail():
         k, st, reason, title, detail, fault, ehs = err
@@ -410,7 +413,8 @@ def c19_bodiless(method, status):
 
 
 def c19_response_bytes(resp, method=b"GET"):
-    """resp = (status, loc, body, framing, delay, cuts, close[, k100])     k100 = number of interim 100 Continue responses sent first
+    """resp = (status, loc, body, framing, delay, cuts, close[, k100[, ctype]])     k100 = number of interim 100 Continue responses sent first;
+       ctype 0 none | 1..3 a JSON Content-Type header
        loc: None | (secure 0|1, port, target bytes: path, optionally ?query)
        framing: 0 Content-Length | 1 chunked | 2 until-close | 3 Content-Length but truncated by close
        For a bodiless response (HEAD request, 1xx / 204 / 304) the head is the same (Content-Length = entity length, or
@@ -418,7 +422,10 @@ def c19_response_bytes(resp, method=b"GET"):
        returns (bytes, close_after)"""
     status, loc, body, framing, delay, cuts, close = resp[:7]
     k100 = resp[7] if len(resp) > 7 else 0
+    ctype = resp[8] if len(resp) > 8 else 0
     lines = ["HTTP/1.1 %d %s" % (status, REASONS.get(status, "X"))]
+    if ctype:       # the body is announced as JSON (whatever its bytes really are)
+        lines.append("Content-Type: " + [None, "application/json", "application/json; charset=utf-8", "Application/JSON;charset=ISO-8859-1"][ctype])
     if loc is not None:
         sec, port, path = loc
         lines.append("Location: %s://%s:%d%s" % ("https" if sec else "http", HOST, port, path.decode("ascii")))
@@ -501,6 +508,8 @@ class World:
             self.used[port] += 1
             script = self.scripts[port]
             resp = script[k] if k < len(script) else (200, None, b"", 0, 0, [], False)
+            if resp[3] == 4:        # framing 4 has its own closing rule (unsolicited 408 + close only if the client stays idle): a close-after flag means nothing there
+                resp = tuple(resp[:6]) + (False,) + tuple(resp[7:])
             self.served.append(resp)
             render = getattr(self, "render", None)
             raw, close = render(resp, head.split(b" ", 1)[0]) if render else c19_response_bytes(resp, head.split(b" ", 1)[0])
@@ -549,12 +558,19 @@ class World:
                 sock.mark_last = 0
 
 
+def c19_kmode(case):
+    """which constructor route c19_run takes for this case (see there)"""
+    secure, reqs, servers = case[0], case[1], case[2]
+    return (3 * len(reqs) + len(servers) + sum(len(sc) for _, _, sc in servers)) % 4
+
+
 def c19_run(case):
     """case = (secure, reqs, servers, late)
        reqs = [(method bytes, path bytes, body bytes)]   servers = [(port, secure, [resp,...])]; the client connects to servers[0]
        late = number of requests queued only after the first response entry appeared (the rest are queued before the first cycle)
     """
     import ssl
+    import types
     from hio.base import tyming
     from hio.core import tcp
     from hio.core.http import clienting, httping
@@ -577,7 +593,7 @@ def c19_run(case):
             self.opened = True
             return True
 
-    class SClientTls(RealClientTls):
+    class SClientTls(SClient, RealClientTls):        # as in hio.core.tcp: the TLS client IS a (subclass of the plain) client
         def __init__(self, bufsize=None, context=None, **kwa):
             if context is None:
                 context = ssl.SSLContext(ssl.PROTOCOL_TLS_CLIENT)
@@ -626,14 +642,27 @@ def c19_run(case):
             for k in range(n_first):
                 own_requests.append(reqdict(k))
             own_responses.append(SENTINEL)
-        if cmode == 0:
-            client = clienting.Client(connector=connector, hostname=HOST, port=port0)
-        else:
-            client = clienting.Client(connector=connector, hostname=HOST, port=port0, requests=own_requests, responses=own_responses,
-                                      redirects=own_redirects, events=own_events)
-            other = clienting.Client(connector=cls(ha=(HOST, port0), tymth=tymist.tymen()), hostname=HOST, port=port0, responses=own_responses)
+        # how the Client gets its connection (derived from the case): 0 a connector the CALLER built, no scheme given; 1 the same with the matching
+        # scheme= spelled out; 2 no connector: scheme= / hostname= / port= (the Client builds tcp.Client / tcp.ClientTls itself); 3 no connector: a full
+        # URL as path=;  odd sums also ask for dictable=True (every body is tried as JSON)
+        kmode = c19_kmode(case)
+        sch = "https" if secure else "http"
+        how = [dict(connector=connector, hostname=HOST, port=port0), dict(connector=connector, hostname=HOST, port=port0, scheme=sch.upper() if len(reqs) % 2 else sch),
+               dict(scheme=sch, hostname=HOST, port=port0, tymth=tymist.tymen()), dict(path="%s://%s:%d/" % (sch, HOST, port0), tymth=tymist.tymen())][kmode]
+        if (len(reqs) + len(servers)) % 2:
+            how["dictable"] = True
+        client = None
+        try:
+            if cmode == 0:
+                client = clienting.Client(**how)
+            else:
+                client = clienting.Client(requests=own_requests, responses=own_responses, redirects=own_redirects, events=own_events, **how)
+                other = clienting.Client(connector=cls(ha=(HOST, port0), tymth=tymist.tymen()), hostname=HOST, port=port0, responses=own_responses)
+            client.reopen()
+        except Exception as ex:      # a constructor that refuses legitimate arguments is an observation too
+            out["raised"] = ("construct:" + type(ex).__name__, False)
+            client = types.SimpleNamespace(responses=deque(), requests=deque(), waited=False, request=lambda **kw: None, service=lambda: None, reopen=lambda: None)
         responses = client.responses if cmode == 0 else own_responses     # the caller reads ITS deque
-        client.reopen()
         def queue(k):
             method, path, body = allreqs[k][:3]
             qa = allreqs[k][3] if len(allreqs[k]) > 3 else []
@@ -654,7 +683,7 @@ def c19_run(case):
         phase = 0
         waited_trace = []
         budget = 120 + 2 * sum(8 + r[4] + len(r[5]) for _, _, rs in servers for r in rs) + 20 * (len(reqs) + len(second))
-        for cyc in range(budget):
+        for cyc in range(budget if not out["raised"] else 0):
             before = (len(responses), len(client.requests), client.waited, sum(len(s.sent) for _, s in world.socks),
                       sum(len(s.inbox) + len(s.timeline) for _, s in world.socks))
             try:
@@ -725,11 +754,17 @@ C14_BOUNDARY_N = 0xabcdef123456
 C14_BOUNDARY = ("____________{0:012x}".format(C14_BOUNDARY_N)).encode("ascii")
 
 
-def c14_seq_run(specs, sched):
+def c14_seq_run(specs, sched, route=0):
     """specs = [(method, path, qargs, headers, bkind, bval, explicit_cl, fresh)], as c14_run plus `fresh`: build with a new Requester
     (True) or by Requester.rebuild() on the previous one (False, what Client.transmit does), or 2: rebuild() WITHOUT path=, i.e. the
     stored path of the previous request is used again (the spec's own path field is then ignored).
     sched = (cuts, gap): cut points into the concatenated request stream, `gap` service cycles after each piece.
+    route 0: Requester objects used directly (host example.com:8080).  route 1: through a clienting.Client (host 127.0.0.1:8080, never connected — what it
+    queues on its connector is taken as sent and a bare 200 is handed back so that the exchange ends):
+      fresh True -> a new Client whose CONSTRUCTOR gets method / path / qargs / headers / body (sent by a bare transmit(), or request() + serviceRequests()
+      when there is no body), 3 -> the same with path= given as a full URL (scheme://host:port/path?query#fragment, no hostname= / port=),
+      False / 2 -> Client.request(...) with / without path= then serviceRequests(), 4 -> Client.transmit(...) with arguments.  (route 0: 3 = True, 4 = False)
+    qargs / headers None: the argument is NOT passed (the previous request's values are inherited); an empty list IS passed, as an empty collection.
     returns dict(builts=[bytes | ('raise', cls)], views=[dict], leftover=bytes, closed=bool, raised=None|cls)"""
     import json
     import types
@@ -746,11 +781,14 @@ def c14_seq_run(specs, sched):
     try:
         for spec in specs:
             method, path, qargs, headers, bkind, bval, explicit_cl, fresh = spec
+            restart = requester is None or fresh is True or fresh == 1 or fresh == 3
+            no_qargs, no_headers = qargs is None and not restart, headers is None and not restart
+            qargs, headers = qargs or [], headers or []
             hs = [(n.decode("ascii"), v.decode("latin-1")) for n, v in headers]
             body, data, fargs = b"", None, None
             if bkind == 0:
                 body = bytes(bval)
-                if explicit_cl:
+                if explicit_cl and not no_headers:
                     hs.append(("Content-Length", ("00" if explicit_cl == 2 else "") + str(len(body))))
             elif bkind == 1:
                 data = json.loads(bytes(bval).decode("utf-8"))
@@ -766,8 +804,43 @@ def c14_seq_run(specs, sched):
             if bkind == 0 and len(body) % 3 == 1:
                 body = body.decode("latin-1")
             hs = [(n, int(v) if (v.isascii() and v.isdigit() and str(int(v)) == v and len(v) % 2 == 0) else v) for n, v in hs]
+            kw = dict(method=method.decode("utf-8"), body=body, data=data, fargs=fargs)
+            if not no_qargs:
+                kw["qargs"] = qd
+            if not no_headers:
+                kw["headers"] = hhelp.Hict(hs)
             try:
-                if requester is None or fresh is True or fresh == 1:
+                if route == 1:
+                    if restart:
+                        p = path.decode("utf-8")
+                        if fresh == 3:
+                            requester = clienting.Client(path="http://127.0.0.1:8080" + p, **kw)
+                        else:
+                            requester = clienting.Client(hostname="127.0.0.1", port=8080, path=p, **kw)
+                        if body or data is not None or fargs is not None or len(p) % 2 == 0:
+                            requester.transmit()
+                        else:
+                            requester.request()
+                            requester.serviceRequests()
+                    elif fresh == 4:
+                        requester.transmit(path=path.decode("utf-8"), **kw)
+                    else:
+                        if fresh != 2:
+                            kw["path"] = path.decode("utf-8")
+                        requester.request(**kw)
+                        requester.serviceRequests()
+                    msg = bytes(requester.connector.txbs)
+                    requester.connector.txbs.clear()
+                    requester.connector.rxbs.extend(b"HTTP/1.1 200 OK\r\nContent-Length: 0\r\n\r\n")
+                    requester.serviceResponse()
+                    if requester.waited or requester.requests or not msg:
+                        raise RuntimeError("client did not complete the exchange")
+                    requester.responses.clear()
+                    builts.append(msg)
+                    continue
+                if no_qargs or no_headers:
+                    msg = requester.rebuild(path=None if fresh == 2 else path.decode("utf-8"), **kw)
+                elif requester is None or fresh is True or fresh == 1 or fresh == 3:
                     requester = clienting.Requester(hostname="example.com", port=8080, method=method.decode("utf-8"), path=path.decode("utf-8"),
                                                     qargs=qd, headers=hhelp.Hict(hs), body=body, data=data, fargs=fargs)
                     msg = requester.build()
